@@ -548,6 +548,8 @@ pub struct World {
     pub broker_session_expiry_zero: bool,
     /// Receive Maximum the prompt, conformant broker of the final reconnects grants
     pub final_small_rm: Option<u16>,
+    /// Maximum Packet Size of the next CONNACK (ack-lost prefix)
+    pub force_next_mps: Option<u32>,
     /// twin runs: the next operation is not cancelled (last attempt of a repeated disconnect)
     pub no_cancel: bool,
     pub qos0_cancelled: bool,
@@ -642,6 +644,7 @@ impl World {
             die_after_accepting: None,
             broker_session_expiry_zero: false,
             final_small_rm: None,
+            force_next_mps: None,
             no_cancel: false,
             qos0_cancelled: false,
             burn_done: false,
